@@ -336,7 +336,7 @@ pub fn run_shard(ctx: &mut ShardCtx) {
     if ctx.shard == 0 {
         ctx.witnesses(&replay);
     }
-    let n = ctx.share(ctx.tier.pick(8_000, 200_000));
+    let n = ctx.share(ctx.tier.pick(32_000, 800_000));
     let excluded: Vec<String> = ctx.excludes.keys().cloned().collect();
     let tolerate_ww = ctx.excluded("txn.ww_conflict_check");
     let strat = gen_history(&opts(ctx)).prop_map(move |steps| Sched { cfg: Cfg::default(), steps, excluded: excluded.clone(), tolerate_ww });
